@@ -1124,7 +1124,9 @@ impl Generatable for Expression
 					}
 					ValueType::Usize =>
 					{
-						let value_bits = (value & 0xFFFFFFFF) as u64;
+						// LLVMConstInt truncates to the width of usize on
+						// the target; do not cut 64-bit values down to 32.
+						let value_bits = value as u64;
 						Ok(llvm.const_usize(value_bits as usize))
 					}
 					_ if value <= u64::MAX as u128 =>
